@@ -16,7 +16,10 @@ RACE_PROPS=" C03 C04 C05 C06 C08 C12 C18 C20 "
 build() { # $1 = output name, rest = extra go build flags
   local out="$1"; shift
   local tmp="bin/.$out.$$"
-  if ! (cd harness && go build "$@" -o "../$tmp" ./cmd/vcheck) >"bin/.build.$out.$$.log" 2>&1; then
+  # The multibackend tag reaches into go-perun's backend registries by name (see
+  # harness/internal/gen/multibackend.go); if that ever stops linking, build without it.
+  if ! (cd harness && go build -tags multibackend "$@" -o "../$tmp" ./cmd/vcheck) >"bin/.build.$out.$$.log" 2>&1 &&
+     ! (cd harness && go build "$@" -o "../$tmp" ./cmd/vcheck) >"bin/.build.$out.$$.log" 2>&1; then
     echo "BUILD-ERROR ($out): the harness does not compile against /repo's working tree" >&2
     cat "bin/.build.$out.$$.log" >&2
     rm -f "bin/.build.$out.$$.log" "$tmp"
